@@ -564,6 +564,81 @@ func confScenario(globalMs int, routeMs int) vx.Scenario {
 	return vx.Scenario{Name: name, Body: body, Check: check, SetBound: true, P: 0, T: 0}
 }
 
+// confGroupsScenario: several route groups, each with its own per-route timeout (0 = none), on one
+// engine; every route must run under ITS group's timeout, or the global one when it has none —
+// whatever the other groups declare and in whatever order they were added.
+func confGroupsScenario(globalMs int, routeMs []int) vx.Scenario {
+	name := fmt.Sprintf("restconf-global%d-groups%v", globalMs, routeMs)
+	type one struct {
+		dl   time.Time
+		ok   bool
+		code int
+	}
+	type obs struct {
+		r   []one
+		err string
+	}
+	body := func() {
+		o := &obs{r: make([]one, len(routeMs))}
+		vsched.SetUser(o)
+		var ts []time.Duration
+		var hs []http.HandlerFunc
+		for i, ms := range routeMs {
+			i := i
+			ts = append(ts, time.Duration(ms)*time.Millisecond)
+			hs = append(hs, func(w http.ResponseWriter, r *http.Request) {
+				o.r[i].dl, o.r[i].ok = r.Context().Deadline()
+				w.WriteHeader(204)
+			})
+		}
+		h, err := rest.VerifBindTimeoutRoutes(int64(globalMs), ts, hs)
+		if err != nil {
+			o.err = err.Error()
+			return
+		}
+		for i := range routeMs {
+			rec := &recorder{hdr: http.Header{}}
+			req, _ := http.NewRequest(http.MethodGet, fmt.Sprintf("/t%d", i), nil)
+			h.ServeHTTP(rec, req)
+			o.r[i].code = rec.code
+		}
+	}
+	check := func(e *vsched.Exec) vx.Verdict {
+		if g := vx.Guard(e); g != nil {
+			return *g
+		}
+		o := e.User.(*obs)
+		if o.err != "" {
+			return vx.Verdict{Class: "conf-bind-error", Msg: o.err}
+		}
+		sig := ""
+		for i, ms := range routeMs {
+			want := ms
+			if want <= 0 {
+				want = globalMs
+			}
+			got := o.r[i]
+			if got.code != 204 {
+				return vx.Verdict{Class: "conf-wrong-response", Msg: fmt.Sprintf("%s route %d: code %d", name, i, got.code)}
+			}
+			if want <= 0 {
+				if got.ok {
+					return vx.Verdict{Class: "conf-wrong-deadline:other-group", Msg: fmt.Sprintf("%s: route %d has no timeout configured but its handler saw deadline %v", name, i, got.dl)}
+				}
+				sig += "none,"
+				continue
+			}
+			exp := vsched.Epoch.Add(time.Duration(want) * time.Millisecond)
+			if !got.ok || !got.dl.Equal(exp) {
+				return vx.Verdict{Class: "conf-wrong-deadline:other-group", Msg: fmt.Sprintf("%s: handler of route %d saw deadline %v (ok=%v), want start+%dms", name, i, got.dl, got.ok, want)}
+			}
+			sig += fmt.Sprintf("%dms,", want)
+		}
+		return vx.Verdict{Sig: sig}
+	}
+	return vx.Scenario{Name: name, Body: body, Check: check, SetBound: true, P: 0, T: 0}
+}
+
 func main() {
 	cfg := vlib.ParseFlags("C04", "model_checking")
 	r := vlib.NewReport(cfg)
@@ -634,6 +709,18 @@ func main() {
 	for _, g := range []int{0, 300, 3000} {
 		for _, rt := range []int{0, 100, 5000} {
 			sc = append(sc, confScenario(g, rt))
+		}
+	}
+	for _, g := range []int{0, 300, 3000} {
+		for _, r0 := range []int{0, 100, 5000} {
+			for _, r1 := range []int{0, 100, 5000} {
+				sc = append(sc, confGroupsScenario(g, []int{r0, r1}))
+				if cfg.Thorough() {
+					for _, r2 := range []int{0, 100, 5000} {
+						sc = append(sc, confGroupsScenario(g, []int{r0, r1, r2}))
+					}
+				}
+			}
 		}
 	}
 	vx.Main(cfg, r, sc, vx.Bounds{P: 3, T: 1}, vx.Bounds{P: 4, T: 2},
